@@ -19,18 +19,20 @@ def run(ctx):
     jobs = {}
     if ctx.quick:
         jobs["mc1"] = dict(area=AREA, module="RedirectMC", cfg="RedirectMC.cfg", workers=2, timeout=900,
-                           consts=dict(INITS="QuickInits", TARGETS="KeyTargets", MAXSET="{1, 2}", MAXHOPS=2))
+                           consts=dict(INITS="QuickInits", TARGETS="KeyTargets", MAXSET="{1, 2}", MAXHOPS=2, ORIGINS="SetterOrigin"))
         gens = {"gen1": dict(INITS="OneInit", TARGETS="AllTargets", STATUSES="AllStatuses", FORMS="AllForms",
-                             METHODS="KeyMethods", MAXSET="{1}", EXHOPS=1, NSAMPLES=1500, SAMPLEHOPS=3)}
+                             METHODS="KeyMethods", MAXSET="{1}", EXHOPS=1, NSAMPLES=1500, SAMPLEHOPS=3, ORIGINS="SetterOrigin")}
     else:
         jobs["mc1"] = dict(area=AREA, module="RedirectMC", cfg="RedirectMC.cfg", workers=2, timeout=3000,
-                           consts=dict(INITS="KeyInits", TARGETS="AllTargets", MAXSET="{0, 1, 3}", MAXHOPS=4))
+                           consts=dict(INITS="KeyInits", TARGETS="AllTargets", MAXSET="{0, 1, 3}", MAXHOPS=4, ORIGINS="SetterOrigin"))
         jobs["mc2"] = dict(area=AREA, module="RedirectMC", cfg="RedirectMC.cfg", workers=1, timeout=3000,
-                           consts=dict(INITS="AllInits", TARGETS="AllTargets", MAXSET="{0, 2}", MAXHOPS=2))
+                           consts=dict(INITS="AllInits", TARGETS="AllTargets", MAXSET="{0, 2}", MAXHOPS=2, ORIGINS="AllOrigins"))
         gens = {"gen1": dict(INITS="AllInits", TARGETS="AllTargets", STATUSES="AllStatuses", FORMS="AllForms",
-                             METHODS="AllMethods", MAXSET="{0, 1}", EXHOPS=1, NSAMPLES=20000, SAMPLEHOPS=4),
+                             METHODS="AllMethods", MAXSET="{0, 1}", EXHOPS=1, NSAMPLES=20000, SAMPLEHOPS=4, ORIGINS="SetterOrigin"),
                 "gen2": dict(INITS="KeyInits", TARGETS="KeyTargets", STATUSES="KeyStatuses", FORMS="KeyForms",
-                             METHODS="KeyMethods", MAXSET="{2}", EXHOPS=2, NSAMPLES=0, SAMPLEHOPS=1)}
+                             METHODS="KeyMethods", MAXSET="{2}", EXHOPS=2, NSAMPLES=0, SAMPLEHOPS=1, ORIGINS="SetterOrigin"),
+                "gen3": dict(INITS="OneInit", TARGETS="AllTargets", STATUSES="AllStatuses", FORMS="AllForms",
+                             METHODS="KeyMethods", MAXSET="{1}", EXHOPS=1, NSAMPLES=0, SAMPLEHOPS=1, ORIGINS="AllOrigins")}
     for name, c in gens.items():
         c = dict(c, MAXHOPS=17, SEED=seed)
         jobs[name] = dict(area=AREA, module="RedirectGen", cfg="RedirectGen.cfg", workers=1, timeout=3000, consts=c)
